@@ -142,18 +142,19 @@ UNITS['removers'] = dict(
 
 IDE = 'AnyId<std::hash, EmptyAnyStorage>'
 IDS = 'AnyId<std::hash, Stor>'
+IDI = 'AnyId<std::hash, StorI>'
 UNITS['anyid'] = dict(
     tu='inst/anyid.cpp', filter=['eventpp::operator', 'AnyId', 'compare', 'MakeHash', 'std::hash', 'anyid_internal_::Has'], std='c++11',
     root=('ClassTemplateSpecializationDecl', 'AnyId'), root_q=IDE,
-    extra_roots=[('ClassTemplateSpecializationDecl', 'AnyId', IDS),
+    extra_roots=[('ClassTemplateSpecializationDecl', 'AnyId', IDS), ('ClassTemplateSpecializationDecl', 'AnyId', IDI), ('ClassTemplateSpecializationDecl', 'hash', 'std::hash<' + IDI + '>'),
                  ('ClassTemplateSpecializationDecl', 'hash', 'std::hash<AnyId<>>'), ('ClassTemplateSpecializationDecl', 'hash', 'std::hash<' + IDS + '>'),
                  ('ClassTemplateSpecializationDecl', 'MakeHash', 'anyid_internal_::MakeHash<unsigned long, void>')],
     free_functions=['operator==', 'operator<', 'compareEqual', 'compareLessThan'],
-    names={IDE: 'IdE', IDS: 'IdS', 'Stor': 'Stor', 'AnyId<>': 'IdE', 'EmptyAnyStorage': 'EmptyStorage', 'std::hash<AnyId<>>': 'HashE', 'std::hash<' + IDE + '>': 'HashE', 'std::hash<' + IDS + '>': 'HashS',
+    names={IDE: 'IdE', IDS: 'IdS', IDI: 'IdI', 'StorI': 'StorI', 'std::hash<' + IDI + '>': 'HashI', 'Stor': 'Stor', 'AnyId<>': 'IdE', 'EmptyAnyStorage': 'EmptyStorage', 'std::hash<AnyId<>>': 'HashE', 'std::hash<' + IDE + '>': 'HashE', 'std::hash<' + IDS + '>': 'HashS',
            'anyid_internal_::MakeHash<unsigned long, void>': 'MakeHash', 'anyid_internal_::MakeHash<unsigned long>': 'MakeHash'},
-    type_subst=[('AnyId<hash, EmptyAnyStorage>', IDE), ('AnyId<hash, Stor>', IDS)],
-    value_records=['Stor', 'EmptyStorage', 'MakeHash'],
-    opaque_records=['Stor', 'EmptyStorage'],
+    type_subst=[('AnyId<hash, EmptyAnyStorage>', IDE), ('AnyId<hash, StorI>', IDI), ('AnyId<hash, Stor>', IDS)],
+    value_records=['Stor', 'StorI', 'EmptyStorage', 'MakeHash'],
+    opaque_records=['Stor', 'StorI', 'EmptyStorage'],
     ghost_sig=[],
     type_rules=[(r'DigestType$', 'builtin', 'unsigned long'), (r'^std::size_t$|^size_t$', 'builtin', 'unsigned long')],
 )
